@@ -36,9 +36,12 @@ def prove_run(ctx, want, forge):
 
 
 CHECK = {
-    "lean_modules": ["P3R.Props.C10"],
+    "lean_modules": ["P3R.Props.C10", "P3R.Props.C10Full"],
     "theorems": ["P3R.C10.record_row_add", "P3R.C10.record_row_mul", "P3R.C10.record_row_muladd", "P3R.C10.record_row_bool",
-                 "P3R.C10.honest_bus_balanced"],
+                 "P3R.C10.honest_bus_balanced",
+                 # model-level completeness: the honest trace meets both acceptance conditions of C04.accepted_sat
+                 "P3R.C10.holds_rowOk", "P3R.C10.honest_rows", "P3R.C10.honest_tupleNet", "P3R.C10.honest_bus",
+                 "P3R.C10.honest_accepted", "P3R.C10.run_honest_accepted"],
     "run": lambda ctx: prove_run(ctx, "C10", 0),
     "trusted_base": ["STARK completeness: a trace satisfying all row constraints with a balanced bus is provable (also exercised for real by every run)"],
     "assumptions": ["BabyBear D=1 circuits of primitive ops and hints; scheduled/packed ALU layout is tied by C11's scheduled-trace oracle, not by a Lean schedule model"],
@@ -48,6 +51,6 @@ MANIFEST_ENTRY = {
     "property_id": "C10", "quick_cmd": "bin/check C10 --tier quick", "thorough_cmd": "bin/check C10 --tier thorough",
     "evidence_file": "evidence/C10.json", "replay_cmd_template": "bin/check C10 --replay {path}", "engine": "lean-models",
     "technique": "Lean 4 theorems linking runner records to ALU row constraints and bus balance + real prove/verify of generated circuits",
-    "level_claimed": {"category": "proof", "text": "runner records satisfy the ALU lane constraints (non-Horner kinds) and the honest bus balances (C09) — proved; the Horner/scheduled part is partial (finding F7) and, like real prover success, exercised by proving and verifying every generated satisfying program.", "design_ref": "4/C10"},
+    "level_claimed": {"category": "proof", "text": "run_honest_accepted: a successful modelled run with satisfying inputs yields a trace whose row constraints vanish (ADD/MUL/BOOL/MUL_ADD/chained single-step HORNER, D=1) and whose WitnessChecks bus balances tuple by tuple — proved for every circuit with Horner chains and created read slots; the Horner/scheduled part is partial (finding F7) and, like real prover success, exercised by proving and verifying every generated satisfying program.", "design_ref": "4/C10"},
     "level_note": "STARK completeness assumed and exercised; known findings F7 (Horner steps that are not chains) and F17 (unused private input) reported as KNOWN-FINDING",
 }
